@@ -243,7 +243,7 @@ func init() {
 		Rule: "B programs (generated to touch shared things: raise `_` at different lines, abstract Either props, every built-in error kind, recursion traces, variables named like the history's, evalEnv, built-in iterators, parse failures, prototype listings, stdin; plus corpus programs) are observed in a newly started process (twice) and then, in a long-lived interpreter, in a fresh scope after each of several histories H of 1–8 such programs (incl. failing ones): stdout, value, error kind/message and stack trace must be byte-identical. " +
 			"After every program of H a structural monitor compares every object reachable from the const env (prototype tables, key lists, protos, error state incl. stack trace of `_`) with its start-up fingerprint, and names defined by H must be undefined in a fresh scope. " +
 			"`pangaea test` directories: RunTest(dir) must equal the concatenation of RunSource(file) of each file alone. distinct = distinct (B, history) pairs compared + directories; non-trivial = H contained ≥1 program and B was deterministic across the two fresh processes" +
-			" Added: the shared `_` object taken out of prototypes as a plain value, standard-module invite!/import inside functions, a module file with load-time effect imported by relative path, programs with 10 000 handled failing calls followed by deep recursion.",
+			" Added: the shared `_` object taken out of prototypes as a plain value, standard-module invite!/import inside functions, a module file with load-time effect imported by relative path, programs with 10 000 handled failing calls followed by deep recursion. Sixth round: names first used in another order by an earlier program, then == over containers whose elements' == prints.",
 		Assumptions: []string{
 			"the playground discipline (one const env, NewEnclosedEnv + InjectIO per program) is transcribed from web/wasm/executor.go, which cannot be built natively",
 			"B programs are deterministic by construction; a B whose two fresh-process observations differ is inconclusive (that is C08's subject)",
